@@ -1,7 +1,7 @@
 //! C01 (every result normalised or non-finite: single-call sweep + operation programs)
 //! and C11 (default-features build vs no_std/libm build: bit-identical results; fma correctly rounded)
 
-use crate::api::{nostd_build, std_build, Args, Entry, Out, Uses};
+use crate::api::{fma_hooks, hooked_build, nostd_build, std_build, Args, Entry, Out, Uses};
 use crate::check;
 use crate::common::*;
 use crate::engine::{guard, CaseWords, Ctx, Kind, Property, SubCheck};
@@ -16,6 +16,10 @@ fn std_table() -> &'static Vec<Entry> {
     static T: OnceLock<Vec<Entry>> = OnceLock::new();
     T.get_or_init(std_build::table)
 }
+fn hooked_table() -> &'static Vec<Entry> {
+    static T: OnceLock<Vec<Entry>> = OnceLock::new();
+    T.get_or_init(hooked_build::table)
+}
 fn nostd_table() -> &'static Vec<Entry> {
     static T: OnceLock<Vec<Entry>> = OnceLock::new();
     T.get_or_init(nostd_build::table)
@@ -28,9 +32,12 @@ const PIVOTS: [f64; 28] = [
 
 /// operand in the C01 domain: valid, hi = 0 or 2^-1000 <= |hi| <= 2^1000
 fn operand(ctx: &mut Ctx) -> Dd {
+    if let Some(c) = maybe_constant(ctx, 24, false) {
+        return c;
+    }
     let c = ctx.weighted(&[5, 5, 4, 3, 2, 1]);
     let d = match c {
-        0 => dd_exp(ctx, -1000, 999, true),
+        0 => dd_closed(ctx, -1000, 1000, true),
         1 => dd_exp(ctx, -40, 40, true),
         2 => {
             ctx.label("arg:pivot");
@@ -54,7 +61,7 @@ fn operand(ctx: &mut Ctx) -> Dd {
             dd_at(ctx, hi)
         }
     };
-    if d.hi != 0.0 && (exponent(d.hi) < -1000 || exponent(d.hi) > 999) {
+    if d.hi != 0.0 && (d.hi.abs() < pow2_f64(-1000) || d.hi.abs() > pow2_f64(1000)) {
         dd_exp(ctx, -1000, 999, false)
     } else {
         d
@@ -386,17 +393,27 @@ fn c11_differential(ctx: &mut Ctx) {
     key_args(ctx, es, &x);
     ctx.note("entry", || es.name.to_string());
     ctx.note("args", || show_args(es, &x));
+    let eh = &hooked_table()[i];
     let rs = guard(|| (es.f)(&x));
     let rn = guard(|| (en.f)(&x));
+    let rh = guard(|| (eh.f)(&x));
+    let show = |o: &Out| o.iter().map(|w| Dd::new(w.0, w.1).show()).collect::<Vec<_>>();
     match (&rs, &rn) {
         (Ok(a), Ok(b)) => {
             ctx.note("std", || format!("{:?}", a));
-            check!(ctx, same_out(a, b), "{}({}): default-features build returned {:?} but the no_std/libm build returned {:?}", es.name, show_args(es, &x), a.iter().map(|w| Dd::new(w.0, w.1).show()).collect::<Vec<_>>(), b.iter().map(|w| Dd::new(w.0, w.1).show()).collect::<Vec<_>>());
+            check!(ctx, same_out(a, b), "{}({}): default-features build returned {:?} but the no_std/libm build returned {:?}", es.name, show_args(es, &x), show(a), show(b));
             let fin = a.iter().any(|w| w.0.is_finite() && w.0 != 0.0);
             ctx.set_nontrivial(es.uses_fma && fin);
         }
         (Err(_), Err(_)) => ctx.label("both-panicked"),
         _ => ctx.fail(format!("{}({}): one build panicked and the other did not (std: {:?}, no_std: {:?})", es.name, show_args(es, &x), rs.as_ref().err(), rn.as_ref().err())),
+    }
+    // hooks-neutrality: the instrumented build (feature verif_hooks, used only for C07's raw
+    // is_valid and for the fma hook) must behave exactly like the crate users compile
+    match (&rs, &rh) {
+        (Ok(a), Ok(b)) => check!(ctx, same_out(a, b), "{}({}): the crate as users build it returned {:?} but the build with the verif_hooks feature returned {:?}: results depend on the build configuration", es.name, show_args(es, &x), show(a), show(b)),
+        (Err(_), Err(_)) => {}
+        _ => ctx.fail(format!("{}({}): panics differ between the plain build and the verif_hooks build (plain: {:?}, hooked: {:?})", es.name, show_args(es, &x), rs.as_ref().err(), rh.as_ref().err())),
     }
 }
 
@@ -489,14 +506,14 @@ fn c11_fma(ctx: &mut Ctx) {
     note_f(ctx, "x", x);
     note_f(ctx, "y", y);
     note_f(ctx, "z", z);
-    let a = std_build::fma(x, y, z);
-    let b = nostd_build::fma(x, y, z);
+    let a = fma_hooks::std_fma(x, y, z);
+    let b = fma_hooks::nostd_fma(x, y, z);
     ctx.note("fma", || format!("std {} / libm {}", showf(a), showf(b)));
-    check!(ctx, same_word(a, b) || (a == 0.0 && b == 0.0), "fma({}, {}, {}): {} = {} but {} = {}", showf(x), showf(y), showf(z), std_build::BACKEND, showf(a), nostd_build::BACKEND, showf(b));
+    check!(ctx, same_word(a, b) || (a == 0.0 && b == 0.0), "fma({}, {}, {}): {} = {} but {} = {}", showf(x), showf(y), showf(z), fma_hooks::STD_BACKEND, showf(a), fma_hooks::NOSTD_BACKEND, showf(b));
     if x.is_finite() && y.is_finite() && z.is_finite() {
         let exact = Big::from_f64(x).mul(&Big::from_f64(y)).add(&Big::from_f64(z));
         let want = exact.to_f64_rn();
-        for (name, got) in [(std_build::BACKEND, a), (nostd_build::BACKEND, b)] {
+        for (name, got) in [(fma_hooks::STD_BACKEND, a), (fma_hooks::NOSTD_BACKEND, b)] {
             check!(ctx, got == want, "fma({}, {}, {}) via {} = {} but the correctly rounded value is {}", showf(x), showf(y), showf(z), name, showf(got), showf(want));
         }
         let inexact = Big::from_f64(want.clamp(f64::MIN, f64::MAX)) != exact;
@@ -510,7 +527,7 @@ pub fn c11() -> Property {
         rule: "differential: the same table of 101 entry points instantiated for the default-features build and for a renamed copy of /repo's working tree built with default-features = false, features = [math_funcs] (libm::fma), linked into one process and called with identical operand words (the C01 sweep operands, 1/8 with wild operands); the fma backends reported by the two builds are recorded. Direct: each build's internal fma against RN(x*y+z) computed exactly, on adversarial triples (z = -RN(xy), ±k ulp, midpoint traps, gaps up to 1100 binades, subnormal results, inf/NaN). non-trivial = entry depends on fma and the result is finite non-zero (differential); x*y+z inexact (direct); distinct = distinct (entry, operand bits)",
         assumptions: vec![
             "the MinGW target cannot be built here; it selects the same libm::fma definition as the no_std build, which is exercised".into(),
-            format!("fma backends linked into this process: default build = {}, no_std build = {}", std_build::BACKEND, nostd_build::BACKEND),
+            format!("fma backends linked into this process: default build = {}, no_std build = {}", fma_hooks::STD_BACKEND, fma_hooks::NOSTD_BACKEND),
         ],
         subchecks: vec![
             SubCheck { name: "differential", kind: Kind::Generated { words: 130, max_items: 0 }, eval: c11_differential, quick: 3_000_000, thorough: 100_000_000 },
